@@ -121,7 +121,7 @@ func TestVerifC17(t *testing.T) {
 		Assumptions: []string{"runs as root on Linux (mknod, chown available)", "owner names in the long name are compared through the same os/user lookup the server uses"},
 		Units: func(tier vfTier, seed uint64) int {
 			if tier == vfThorough {
-				return 4 + 24
+				return 4 + 240
 			}
 			return 4 + 4
 		},
